@@ -450,11 +450,11 @@ int read_fasta( struct in_buffer* b,struct msa** m)
 
                 }else{
                         for(i = 0;i < line_len;i++){
-                                msa->letter_freq[(int)line[i]]++;
                                 if(isalpha((int)line[i])){
                                         if(!seq_ptr){
                                                 ERROR_MSG("Encountered a sequence before encountering it's name");
                                         }
+                                        msa->letter_freq[(int)line[i]]++;
                                         seq_ptr->seq[seq_ptr->len] = line[i];
                                         seq_ptr->len++;
                                         if(seq_ptr->alloc_len == seq_ptr->len){
@@ -533,8 +533,8 @@ int read_clu(struct in_buffer* b , struct msa** m)
                                 }
                                 seq_ptr->name[j] = 0;
                                 for(i = j;i < line_len;i++){
-                                        msa->letter_freq[(int)p[i]]++;
                                         if(isalpha((int)p[i])){
+                                                msa->letter_freq[(int)p[i]]++;
                                                 seq_ptr->seq[seq_ptr->len] = p[i];
                                                 seq_ptr->len++;
                                                 if(seq_ptr->alloc_len == seq_ptr->len){
@@ -630,8 +630,8 @@ int read_msf(struct in_buffer* b,struct msa** m)
                                 j = strnlen(seq_ptr->name, MSA_NAME_LEN);
                                 p += j;
                                 for(i = 0;i < line_len-j;i++){
-                                        msa->letter_freq[(int)p[i]]++;
                                         if(isalpha((int)p[i])){
+                                                msa->letter_freq[(int)p[i]]++;
 
                                                 seq_ptr->seq[seq_ptr->len] = p[i];
                                                 seq_ptr->len++;
